@@ -766,6 +766,8 @@ def run(ck):
                           "note": "an obligation over the regenerated table no longer checks (or a tie broke) but every invalid call explored failed cleanly"},
                          nofail=True)
     dyn["findings"] = sorted(findings)
+    dyn["finding_witnesses"] = {k: {f: w.get(f) for f in ("config", "entry", "desc", "what", "also") if w.get(f) is not None}
+                                for k, w in sorted(findings.items())}
     dyn["observations_outside_the_property"] = observations
     dyn["entry_points_called"] = len(entries)
     dyn["static_only"] = sorted(static_only)
